@@ -82,6 +82,7 @@ claim('C18', 'proof', 'Coq theorems (expression building denotes the expression;
       'Python\'s ast module is trusted to produce the AST shapes of bexp.')
 claim('C07', 'proof', 'Coq theorems on a heap model (mutable label cells; frame + refinement to the pure model by lock-step induction; induction over call histories) + history-level differential test with deep snapshots',
       'C07_call (frame and refinement), _caller_unchanged, _others_unchanged, _depends_on_arguments_only, _history (any sequence of the six entry points over any pool: every result is the pure model on the initial heap and all structures are unchanged), _session (calls interleaved with the CALLER writing to the label sets it holds: every call answers for the labelling the caller has made so far and leaves no trace), '
+      '_fair_container_session / _answers_depend_on_contents (Model/FairCells.v: the fairness argument as an OBJECT with an address - temporaries rebuilt at the address of a dead one, one container edited in place: every call answers for the contents at that moment), _address_cache_harmless_without_reuse / _address_cache_refuted (a per-address memo of the constraints is right exactly until an address is reused), '
       'and non-vacuity: _noclone_refuted, _shallow_clone_refuted, _noclone_history_refuted. The heap model is tied to the pure models by theorem; the pure models to the code by the check: random histories of modelcheck calls '
       '(3 logics x object / cast object / text x F in {None, [], [...]}) over a pool of structures and formulas, snapshots of every structure (contents and identity of every label/successor set) and formula object after every step, '
       'every result compared with the model for that call in isolation; caller-side relabel steps (labels(s).add/discard, labelling_function(), replace_labelling_function), explicit parser= arguments and identity-hashed state objects; history dependence is shrunk to a minimal prelude.',
